@@ -303,8 +303,17 @@ def concurrent(out, pid, bindir, tier, seed, race_ok, ins_ok, groups, cfg=None):
     cases, outp = os.path.join(work, "conc.ndjson"), os.path.join(work, "conc-out.ndjson")
     write_ndjson(cases, [cfg])
     rc, txt = run_bin(bindir, "idx-replay", cases, outp, timeout=3000, env={"IDX_MODE": "conc"})
+    if rc == 124:
+        raise ToolError("idx-replay (conc) timed out")
     if rc != 0:
-        raise ToolError(f"idx-replay (conc) failed rc={rc}: {txt[-2000:]}")
+        # the process running the concurrent rounds died (abort / segmentation fault): the rounds only use the public
+        # index API from several threads, so this is an observation about the code under test, not a tool error
+        done = sum(1 for _ in open(outp)) if os.path.exists(outp) else 0
+        out.violation({"property": pid, "engine": "idx", "type": "concurrent rounds",
+                       "summary": f"the process executing the concurrent insert rounds died with status {rc} after {done} rounds "
+                                  f"(memory corruption or abort inside a concurrent index): {txt[-300:]}",
+                       "conc": cfg, "vector": None})
+        return
     per = Counter()
     contested = 0
     n = 0
